@@ -460,6 +460,10 @@ def c19(tier, seed):
     for name, l in (('closed', '(' * 20000 + '1 + 1' + ')' * 20000), ('unclosed', '(' * 20000 + '1 + 1'), ('unclosed-with-one-closing', '(' * 20000 + '1 + 1)'), ('closing-first', ')' + '(' * 20000 + '1 + 1')):
         out.append({'script': l + '\necho alive\n', 'expect_stdout_last_line': 'alive', 'timeout': 20, 'area': 'calculator:never-crashes:deep-nesting:' + name})
     out.append({'script': '(' * 100 + '1 + 1' + ')' * 100 + '\n', 'expect_stdout': '2\n', 'timeout': 10, 'area': 'calculator:never-crashes:deep-nesting:at-the-limit'})
+    # (repair 99bc23e) a long chain of `^` (evaluated from the right, one level per operator) is rejected as well; the other operators are folded from the left
+    for name, l in (('power-chain', ' ^ '.join(['1'] * 50000)), ('power-chain-in-parentheses', '(' + ' ^ '.join(['1'] * 20000) + ') + 1'), ('sum-chain', ' + '.join(['1'] * 50000)), ('minus-signs', '-' * 20000 + '1 + 1')):
+        out.append({'script': l + '\necho alive\n', 'expect_stdout_last_line': 'alive', 'timeout': 30, 'area': 'calculator:never-crashes:long-chain:' + name})
+    out.append({'line': '2 ^ 3 ^ 2', 'expect_stdout': '512\n', 'timeout': 5, 'area': 'calculator:never-crashes:long-chain:short-chains-still-work'})
     # 64-bit integer arithmetic is exact where floating point is not
     for l, v in (('9007199254740993 + 0', '9007199254740993'), ('4611686018427387905 - 4611686018427387904', '1'), ('9223372036854775807 - 9223372036854775806', '1'), ('(9007199254740993) * 1', '9007199254740993')):
         out.append({'line': l, 'expect_stdout': v + '\n', 'timeout': 5, 'area': 'calculator:integer:exact-beyond-2^53'})
